@@ -71,3 +71,215 @@ def sets : List (List Nat × Nat × Bool × List (List Nat)) := [
   (cp "FILE-HEADER", 0, true, [cp "SEQUENCE-NUMBER", cp "ID"])
 ]
 end Dlis.Standard
+
+namespace Dlis.Standard
+
+/-- per set type: (label, python keyword, attribute kind, fixed representation code or 0 = inferred from the value,
+    multivalued, multidimensional, units settable, detail) — RP66 V1 ch. 5/6 attribute tables as the writer realises them -/
+def attrs : List (String × List (String × String × String × Nat × Bool × Bool × Bool × String)) := [
+  ("AXIS", [
+    ("AXIS-ID", "axis_id", "IdentAttribute", 19, false, false, false, ""),
+    ("COORDINATES", "coordinates", "Attribute", 0, true, false, true, ""),
+    ("SPACING", "spacing", "NumericAttribute", 0, false, false, true, "")]),
+  ("CALIBRATION", [
+    ("CALIBRATED-CHANNELS", "calibrated_channels", "EFLRAttribute", 23, true, false, false, "ref=CHANNEL"),
+    ("UNCALIBRATED-CHANNELS", "uncalibrated_channels", "EFLRAttribute", 23, true, false, false, "ref=CHANNEL"),
+    ("COEFFICIENTS", "coefficients", "EFLRAttribute", 23, true, false, false, "ref=CALIBRATION-COEFFICIENT"),
+    ("MEASUREMENTS", "measurements", "EFLRAttribute", 23, true, false, false, "ref=CALIBRATION-MEASUREMENT"),
+    ("PARAMETERS", "parameters", "EFLRAttribute", 23, true, false, false, "ref=PARAMETER"),
+    ("METHOD", "method", "IdentAttribute", 19, false, false, false, "")]),
+  ("CALIBRATION-MEASUREMENT", [
+    ("PHASE", "phase", "IdentAttribute", 19, false, false, false, "enum=CalibrationMeasurementPhase"),
+    ("MEASUREMENT-SOURCE", "measurement_source", "EFLRAttribute", 24, false, false, false, "ref=*"),
+    ("TYPE", "type", "IdentAttribute", 19, false, false, false, ""),
+    ("DIMENSION", "dimension", "DimensionAttribute", 18, true, false, false, "int_only"),
+    ("AXIS", "axis", "EFLRAttribute", 23, true, false, false, "ref=AXIS"),
+    ("MEASUREMENT", "measurement", "NumericAttribute", 0, true, true, true, ""),
+    ("SAMPLE-COUNT", "sample_count", "NumericAttribute", 0, false, false, true, "int_only"),
+    ("MAXIMUM-DEVIATION", "maximum_deviation", "NumericAttribute", 0, true, true, true, ""),
+    ("STANDARD-DEVIATION", "standard_deviation", "NumericAttribute", 0, true, true, true, ""),
+    ("BEGIN-TIME", "begin_time", "DTimeAttribute", 0, false, false, true, "allow_float"),
+    ("DURATION", "duration", "NumericAttribute", 0, false, false, true, ""),
+    ("REFERENCE", "reference", "NumericAttribute", 0, true, true, true, ""),
+    ("STANDARD", "standard", "NumericAttribute", 0, true, true, true, ""),
+    ("PLUS-TOLERANCE", "plus_tolerance", "NumericAttribute", 0, true, true, true, ""),
+    ("MINUS-TOLERANCE", "minus_tolerance", "NumericAttribute", 0, true, true, true, "")]),
+  ("CALIBRATION-COEFFICIENT", [
+    ("LABEL", "label", "IdentAttribute", 19, false, false, false, ""),
+    ("COEFFICIENTS", "coefficients", "NumericAttribute", 0, true, false, true, ""),
+    ("REFERENCES", "references", "NumericAttribute", 0, true, false, true, ""),
+    ("PLUS-TOLERANCES", "plus_tolerances", "NumericAttribute", 0, true, false, true, ""),
+    ("MINUS-TOLERANCES", "minus_tolerances", "NumericAttribute", 0, true, false, true, "")]),
+  ("CHANNEL", [
+    ("LONG-NAME", "long_name", "EFLROrTextAttribute", 0, false, false, false, "ref=LONG-NAME"),
+    ("PROPERTIES", "properties", "PropertiesAttribute", 19, true, false, false, "enum=Property"),
+    ("REPRESENTATION-CODE", "representation_code", "ReprCodeAttribute", 15, false, false, true, ""),
+    ("UNITS", "units", "IdentAttribute", 19, false, false, false, "enum=Unit"),
+    ("DIMENSION", "dimension", "DimensionAttribute", 18, true, false, false, "int_only"),
+    ("AXIS", "axis", "EFLRAttribute", 23, true, false, false, "ref=AXIS"),
+    ("ELEMENT-LIMIT", "element_limit", "DimensionAttribute", 18, true, false, false, "int_only"),
+    ("SOURCE", "source", "Attribute", 24, false, false, true, ""),
+    ("MINIMUM-VALUE", "minimum_value", "NumericAttribute", 7, true, false, true, ""),
+    ("MAXIMUM-VALUE", "maximum_value", "NumericAttribute", 7, true, false, true, "")]),
+  ("COMPUTATION", [
+    ("LONG-NAME", "long_name", "EFLROrTextAttribute", 0, false, false, false, "ref=LONG-NAME"),
+    ("PROPERTIES", "properties", "PropertiesAttribute", 19, true, false, false, "enum=Property"),
+    ("DIMENSION", "dimension", "DimensionAttribute", 18, true, false, false, "int_only"),
+    ("AXIS", "axis", "EFLRAttribute", 23, true, false, false, "ref=AXIS"),
+    ("ZONES", "zones", "EFLRAttribute", 23, true, false, false, "ref=ZONE"),
+    ("VALUES", "values", "NumericAttribute", 0, true, true, true, ""),
+    ("SOURCE", "source", "EFLRAttribute", 23, false, false, false, "")]),
+  ("EQUIPMENT", [
+    ("TRADEMARK-NAME", "trademark_name", "TextAttribute", 20, false, false, false, ""),
+    ("STATUS", "status", "StatusAttribute", 26, false, false, false, ""),
+    ("TYPE", "_type", "IdentAttribute", 19, false, false, false, "enum=EquipmentType"),
+    ("SERIAL-NUMBER", "serial_number", "IdentAttribute", 19, false, false, false, ""),
+    ("LOCATION", "location", "IdentAttribute", 19, false, false, false, "enum=EquipmentLocation"),
+    ("HEIGHT", "height", "NumericAttribute", 0, false, false, true, ""),
+    ("LENGTH", "length", "NumericAttribute", 0, false, false, true, ""),
+    ("MINIMUM-DIAMETER", "minimum_diameter", "NumericAttribute", 0, false, false, true, ""),
+    ("MAXIMUM-DIAMETER", "maximum_diameter", "NumericAttribute", 0, false, false, true, ""),
+    ("VOLUME", "volume", "NumericAttribute", 0, false, false, true, ""),
+    ("WEIGHT", "weight", "NumericAttribute", 0, false, false, true, ""),
+    ("HOLE-SIZE", "hole_size", "NumericAttribute", 0, false, false, true, ""),
+    ("PRESSURE", "pressure", "NumericAttribute", 0, false, false, true, ""),
+    ("TEMPERATURE", "temperature", "NumericAttribute", 0, false, false, true, ""),
+    ("VERTICAL-DEPTH", "vertical_depth", "NumericAttribute", 0, false, false, true, ""),
+    ("RADIAL-DRIFT", "radial_drift", "NumericAttribute", 0, false, false, true, ""),
+    ("ANGULAR-DRIFT", "angular_drift", "NumericAttribute", 0, false, false, true, "")]),
+  ("FRAME", [
+    ("DESCRIPTION", "description", "TextAttribute", 20, false, false, false, ""),
+    ("CHANNELS", "channels", "EFLRAttribute", 23, true, false, false, "ref=CHANNEL"),
+    ("INDEX-TYPE", "index_type", "IdentAttribute", 19, false, false, false, "enum=FrameIndexType"),
+    ("DIRECTION", "direction", "IdentAttribute", 19, false, false, false, ""),
+    ("SPACING", "spacing", "NumericAttribute", 0, false, false, true, ""),
+    ("ENCRYPTED", "encrypted", "NumericAttribute", 15, false, false, true, ""),
+    ("INDEX-MIN", "index_min", "NumericAttribute", 0, false, false, true, ""),
+    ("INDEX-MAX", "index_max", "NumericAttribute", 0, false, false, true, "")]),
+  ("GROUP", [
+    ("DESCRIPTION", "description", "TextAttribute", 20, false, false, false, ""),
+    ("OBJECT-TYPE", "object_type", "IdentAttribute", 19, false, false, false, ""),
+    ("OBJECT-LIST", "object_list", "EFLRAttribute", 24, true, false, false, ""),
+    ("GROUP-LIST", "group_list", "EFLRAttribute", 23, true, false, false, "ref=GROUP")]),
+  ("LONG-NAME", [
+    ("GENERAL-MODIFIER", "general_modifier", "TextAttribute", 20, true, false, false, ""),
+    ("QUANTITY", "quantity", "TextAttribute", 20, false, false, false, ""),
+    ("QUANTITY-MODIFIER", "quantity_modifier", "TextAttribute", 20, true, false, false, ""),
+    ("ALTERED-FORM", "altered_form", "TextAttribute", 20, false, false, false, ""),
+    ("ENTITY", "entity", "TextAttribute", 20, false, false, false, ""),
+    ("ENTITY-MODIFIER", "entity_modifier", "TextAttribute", 20, true, false, false, ""),
+    ("ENTITY-NUMBER", "entity_number", "TextAttribute", 20, false, false, false, ""),
+    ("ENTITY-PART", "entity_part", "TextAttribute", 20, false, false, false, ""),
+    ("ENTITY-PART-NUMBER", "entity_part_number", "TextAttribute", 20, false, false, false, ""),
+    ("GENERIC-SOURCE", "generic_source", "TextAttribute", 20, false, false, false, ""),
+    ("SOURCE-PART", "source_part", "TextAttribute", 20, true, false, false, ""),
+    ("SOURCE-PART-NUMBER", "source_part_number", "TextAttribute", 20, true, false, false, ""),
+    ("CONDITIONS", "conditions", "TextAttribute", 20, true, false, false, ""),
+    ("STANDARD-SYMBOL", "standard_symbol", "TextAttribute", 20, false, false, false, ""),
+    ("PRIVATE-SYMBOL", "private_symbol", "TextAttribute", 20, false, false, false, "")]),
+  ("MESSAGE", [
+    ("TYPE", "_type", "IdentAttribute", 19, false, false, false, ""),
+    ("TIME", "time", "DTimeAttribute", 0, false, false, true, "allow_float"),
+    ("BOREHOLE-DRIFT", "borehole_drift", "NumericAttribute", 0, false, false, true, ""),
+    ("VERTICAL-DEPTH", "vertical_depth", "NumericAttribute", 0, false, false, true, ""),
+    ("RADIAL-DRIFT", "radial_drift", "NumericAttribute", 0, false, false, true, ""),
+    ("ANGULAR-DRIFT", "angular_drift", "NumericAttribute", 0, false, false, true, ""),
+    ("TEXT", "text", "TextAttribute", 20, true, false, false, "")]),
+  ("COMMENT", [
+    ("TEXT", "text", "TextAttribute", 20, true, false, false, "")]),
+  ("NO-FORMAT", [
+    ("CONSUMER-NAME", "consumer_name", "IdentAttribute", 19, false, false, false, ""),
+    ("DESCRIPTION", "description", "TextAttribute", 20, false, false, false, "")]),
+  ("ORIGIN", [
+    ("FILE-ID", "file_id", "TextAttribute", 20, false, false, false, ""),
+    ("FILE-SET-NAME", "file_set_name", "IdentAttribute", 19, false, false, false, ""),
+    ("FILE-SET-NUMBER", "file_set_number", "NumericAttribute", 18, false, false, true, ""),
+    ("FILE-NUMBER", "file_number", "NumericAttribute", 18, false, false, true, ""),
+    ("FILE-TYPE", "file_type", "IdentAttribute", 19, false, false, false, ""),
+    ("PRODUCT", "product", "TextAttribute", 20, false, false, false, ""),
+    ("VERSION", "version", "TextAttribute", 20, false, false, false, ""),
+    ("PROGRAMS", "programs", "TextAttribute", 20, true, false, false, ""),
+    ("CREATION-TIME", "creation_time", "DTimeAttribute", 21, false, false, true, ""),
+    ("ORDER-NUMBER", "order_number", "TextAttribute", 20, false, false, false, ""),
+    ("DESCENT-NUMBER", "descent_number", "NumericAttribute", 16, false, false, true, ""),
+    ("RUN-NUMBER", "run_number", "NumericAttribute", 16, false, false, true, ""),
+    ("WELL-ID", "well_id", "TextAttribute", 20, false, false, false, ""),
+    ("WELL-NAME", "well_name", "TextAttribute", 20, false, false, false, ""),
+    ("FIELD-NAME", "field_name", "TextAttribute", 20, false, false, false, ""),
+    ("PRODUCER-CODE", "producer_code", "NumericAttribute", 16, false, false, true, ""),
+    ("PRODUCER-NAME", "producer_name", "TextAttribute", 20, false, false, false, ""),
+    ("COMPANY", "company", "TextAttribute", 20, false, false, false, ""),
+    ("NAME-SPACE-NAME", "name_space_name", "IdentAttribute", 19, false, false, false, ""),
+    ("NAME-SPACE-VERSION", "name_space_version", "NumericAttribute", 18, false, false, true, "")]),
+  ("PARAMETER", [
+    ("LONG-NAME", "long_name", "EFLROrTextAttribute", 0, false, false, false, "ref=LONG-NAME"),
+    ("DIMENSION", "dimension", "DimensionAttribute", 18, true, false, false, "int_only"),
+    ("AXIS", "axis", "EFLRAttribute", 23, true, false, false, "ref=AXIS"),
+    ("ZONES", "zones", "EFLRAttribute", 23, true, false, false, "ref=ZONE"),
+    ("VALUES", "values", "Attribute", 0, true, true, true, "")]),
+  ("PATH", [
+    ("FRAME-TYPE", "frame_type", "EFLRAttribute", 23, false, false, false, "ref=FRAME"),
+    ("WELL-REFERENCE-POINT", "well_reference_point", "EFLRAttribute", 23, false, false, false, "ref=WELL-REFERENCE"),
+    ("VALUE", "value", "EFLRAttribute", 23, true, false, false, "ref=CHANNEL"),
+    ("BOREHOLE-DEPTH", "borehole_depth", "NumericAttribute", 0, false, false, true, ""),
+    ("VERTICAL-DEPTH", "vertical_depth", "NumericAttribute", 0, false, false, true, ""),
+    ("RADIAL-DRIFT", "radial_drift", "NumericAttribute", 0, false, false, true, ""),
+    ("ANGULAR-DRIFT", "angular_drift", "NumericAttribute", 0, false, false, true, ""),
+    ("TIME", "time", "NumericAttribute", 0, false, false, true, ""),
+    ("DEPTH-OFFSET", "depth_offset", "NumericAttribute", 0, false, false, true, ""),
+    ("MEASURE-POINT-OFFSET", "measure_point_offset", "NumericAttribute", 0, false, false, true, ""),
+    ("TOOL-ZERO-OFFSET", "tool_zero_offset", "NumericAttribute", 0, false, false, true, "")]),
+  ("PROCESS", [
+    ("DESCRIPTION", "description", "TextAttribute", 20, false, false, false, ""),
+    ("TRADEMARK-NAME", "trademark_name", "TextAttribute", 20, false, false, false, ""),
+    ("VERSION", "version", "TextAttribute", 20, false, false, false, ""),
+    ("PROPERTIES", "properties", "PropertiesAttribute", 19, true, false, false, "enum=Property"),
+    ("STATUS", "status", "IdentAttribute", 19, false, false, false, "enum=ProcessStatus"),
+    ("INPUT-CHANNELS", "input_channels", "EFLRAttribute", 23, true, false, false, "ref=CHANNEL"),
+    ("OUTPUT-CHANNELS", "output_channels", "EFLRAttribute", 23, true, false, false, "ref=CHANNEL"),
+    ("INPUT-COMPUTATIONS", "input_computations", "EFLRAttribute", 23, true, false, false, "ref=COMPUTATION"),
+    ("OUTPUT-COMPUTATIONS", "output_computations", "EFLRAttribute", 23, true, false, false, "ref=COMPUTATION"),
+    ("PARAMETERS", "parameters", "EFLRAttribute", 23, true, false, false, "ref=PARAMETER"),
+    ("COMMENTS", "comments", "TextAttribute", 20, true, false, false, "")]),
+  ("SPLICE", [
+    ("OUTPUT-CHANNEL", "output_channel", "EFLRAttribute", 23, false, false, false, "ref=CHANNEL"),
+    ("INPUT-CHANNELS", "input_channels", "EFLRAttribute", 23, true, false, false, "ref=CHANNEL"),
+    ("ZONES", "zones", "EFLRAttribute", 23, true, false, false, "ref=ZONE")]),
+  ("TOOL", [
+    ("DESCRIPTION", "description", "TextAttribute", 20, false, false, false, ""),
+    ("TRADEMARK-NAME", "trademark_name", "TextAttribute", 20, false, false, false, ""),
+    ("GENERIC-NAME", "generic_name", "TextAttribute", 20, false, false, false, ""),
+    ("PARTS", "parts", "EFLRAttribute", 23, true, false, false, "ref=EQUIPMENT"),
+    ("STATUS", "status", "StatusAttribute", 26, false, false, false, ""),
+    ("CHANNELS", "channels", "EFLRAttribute", 23, true, false, false, "ref=CHANNEL"),
+    ("PARAMETERS", "parameters", "EFLRAttribute", 23, true, false, false, "ref=PARAMETER")]),
+  ("WELL-REFERENCE", [
+    ("PERMANENT-DATUM", "permanent_datum", "TextAttribute", 20, false, false, false, ""),
+    ("VERTICAL-ZERO", "vertical_zero", "TextAttribute", 20, false, false, false, ""),
+    ("PERMANENT-DATUM-ELEVATION", "permanent_datum_elevation", "NumericAttribute", 7, false, false, true, ""),
+    ("ABOVE-PERMANENT-DATUM", "above_permanent_datum", "NumericAttribute", 7, false, false, true, ""),
+    ("MAGNETIC-DECLINATION", "magnetic_declination", "NumericAttribute", 7, false, false, true, ""),
+    ("COORDINATE-1-NAME", "coordinate_1_name", "TextAttribute", 20, false, false, false, ""),
+    ("COORDINATE-1-VALUE", "coordinate_1_value", "NumericAttribute", 7, false, false, true, ""),
+    ("COORDINATE-2-NAME", "coordinate_2_name", "TextAttribute", 20, false, false, false, ""),
+    ("COORDINATE-2-VALUE", "coordinate_2_value", "NumericAttribute", 7, false, false, true, ""),
+    ("COORDINATE-3-NAME", "coordinate_3_name", "TextAttribute", 20, false, false, false, ""),
+    ("COORDINATE-3-VALUE", "coordinate_3_value", "NumericAttribute", 7, false, false, true, "")]),
+  ("ZONE", [
+    ("DESCRIPTION", "description", "TextAttribute", 20, false, false, false, ""),
+    ("DOMAIN", "domain", "IdentAttribute", 19, false, false, false, "enum=ZoneDomain"),
+    ("MAXIMUM", "maximum", "DTimeAttribute", 0, false, false, true, "allow_float"),
+    ("MINIMUM", "minimum", "DTimeAttribute", 0, false, false, true, "allow_float")])
+]
+/-- enumerations (RP66 V1 units App. B.27, frame index types, equipment types/locations, zone domains, ...) -/
+def enums : List (String × List String) := [
+  ("CalibrationMeasurementPhase", ["AFTER", "BEFORE", "MASTER"]),
+  ("EquipmentLocation", ["Logging-System", "Remote", "Rig", "Well"]),
+  ("EquipmentType", ["Adapter", "Board", "Bottom-Nose", "Bridle", "Cable", "Calibrator", "Cartridge", "Centralizer", "Chamber", "Cushion", "Depth-Device", "Display", "Drawer", "Excentralizer", "Explosive-Source", "Flask", "Geophone", "Gun", "Head", "Housing", "Jig", "Joint", "Nuclear-Detector", "Packer", "Pad", "Pane", "Positioning", "Printer", "Radioactive-Source", "Shield", "Simulator", "Skid", "Sonde", "Spacer", "Standoff", "System", "Tool", "Tool-Module", "Transducer", "Vibration-Source"]),
+  ("FrameIndexType", ["ANGULAR-DRIFT", "BOREHOLE-DEPTH", "NON-STANDARD", "RADIAL-DRIFT", "VERTICAL-DEPTH"]),
+  ("ProcessStatus", ["COMPLETE", "ABORTED", "IN-PROGRESS"]),
+  ("Property", ["AVERAGED", "CALIBRATED", "CHANGED-INDEX", "COMPUTED", "DEPTH-MATCHED", "DERIVED", "FILTERED", "HOLE-SIZE-CORRECTED", "INCLINOMETRY-CORRECTD", "LITHOLOGY-CORRECTED", "LOCAL-COMPUTATION", "LOCALLY-DEFINED", "MODELLED", "MUDCAKE-CORRECTED", "NORMALIZED", "OVER-SAMPLED", "PATCHED", "PRESSURE-CORRECTED", "RE-SAMPLED", "SALINITY-CORRECTED", "SAMPLED-DOWNWARD", "SAMPLED-UPWARD", "SPEED-CORRECTED", "SPLICED", "SQUARED", "STACKED", "STANDARD-DEVIATION", "STANDOFF-CORRECTED", "TEMPERATURE-CORRECTED", "UNDER-SAMPLED"]),
+  ("Unit", ["A", "K", "cd", "dAPI", "dB", "gAPI", "kg", "m", "mol", "nAPI", "rad", "s", "sr", "Btu", "C", "D", "GPa", "Gal", "Hz", "J", "L", "MHz", "MPa", "MeV", "Mg", "Mpsi", "N", "Oe", "P", "Pa", "S", "T", "V", "W", "Wb", "a", "acre", "atm", "b", "bar", "bbl", "c", "cP", "cal", "cm", "cu", "d", "daN", "deg", "degC", "degF", "dm", "eV", "fC", "ft", "g", "gal", "h", "in", "kHz", "kPa", "kV", "keV", "kgf", "km", "lbf", "lbm", "mA", "mC", "mD", "mGal", "mL", "mS", "mT", "mV", "mW", "mg", "min", "mm", "mohm", "ms", "nC", "nW", "ns", "ohm", "pC", "pPa", "ppdk", "ppk", "ppm", "psi", "pu", "t", "ton", "uA", "uC", "uPa", "uV", "um", "uohm", "upsi", "us"]),
+  ("ZoneDomain", ["BOREHOLE-DEPTH", "TIME", "VERTICAL-DEPTH"])
+]
+end Dlis.Standard
